@@ -1,4 +1,227 @@
-/-! Line protocol handler for the `sys` domain (stub until the model exists). -/
+import OFCore.HeapSys
+/-! Line protocol for the `sys` domain (tax-benefit systems, reforms, copies; property C14).
+Mathlib-free.
+
+```
+sys run <ents> <params> <vars> <ops> <queries> [<ignored> …]
+   -> <stage>|<stage>|…        one stage for the base system and one per operation
+ents    = key,key,…                               the first one is the person entity
+params  = - | name=ord:val,ord:val;name=…         val = <token> | null
+vars    = - | classdef;classdef;…                 the base system's variables, added in order
+classdef= name:vt:default:entity:defperiod:end:setinput:formulas     "-" = not declared
+formulas= - | ord>n,ord>n,…                       start date (ordinal) > function id, class order
+ops     = - | op|op|…
+op      = C!src | R!src!mods | M!tgt!mod          src / tgt = index of a system (0 = base)
+mods    = - | mod&mod&…
+mod     = add~classdef | upd~classdef | rep~classdef | neu~name | ann~name | par~pu+pu+…
+pu      = name@a@b@val                            b = "-" for an open-ended update
+queries = ord,ord,…                               dates at which formulas and parameters are read
+stage   = (ok|ERR):<snap>;<snap>;…                one snapshot per system alive, "=" when the
+                                                  snapshot is the one of the previous stage
+snap    = n=<names>/e=<key^bound^fresh,…>/P=<k>/p=<name@ord=val,…>/v=<var>+<var>+…
+var     = name(own,bl,via,vt,default,entity,defperiod,end,setinput,neutralized,formulas,at)
+```
+`own` = smallest index of a system that resolves the name to the identical object, `bl` = the same
+for the object's `baseline_variable` (`-` none, `x` not the current entry of any system), `via` =
+`ok` when every entity of the system resolves the name to that same object (else `!` and the keys
+of those that do not), `P` = smallest index of a system holding the identical parameter tree.
+-/
 namespace OFCore.Drv
-def handleSys (_args : List String) : String := "BAD"
+open OFCore.HeapSys OFCore.Param
+
+namespace Sys
+
+def allSome {α} : List (Option α) → Option (List α)
+  | [] => some []
+  | none :: _ => none
+  | some a :: r => (allSome r).map (a :: ·)
+
+def optTok (s : String) : Option String := if s = "-" then none else some s
+
+def parseOptInt? (s : String) : Option (Option Int) :=
+  if s = "-" then some none else s.toInt?.map some
+
+def parseFormulas? (s : String) : Option (List (Int × Nat)) :=
+  if s = "-" then some [] else
+  allSome ((s.splitOn ",").map fun f =>
+    match f.splitOn ">" with
+    | [d, n] => do pure (← d.toInt?, ← n.toNat?)
+    | _ => none)
+
+def parseClassDef? (s : String) : Option ClassDef :=
+  match s.splitOn ":" with
+  | [name, vt, dflt, ent, dp, e, si, fs] => do
+    if name = "" then none
+    let e ← parseOptInt? e
+    let fs ← parseFormulas? fs
+    pure { name := name, valueType := optTok vt, default := optTok dflt, entity := optTok ent,
+           defPeriod := optTok dp, endDate := e, setInput := optTok si, formulas := fs }
+  | _ => none
+
+def parsePUpd? (s : String) : Option PUpd :=
+  match s.splitOn "@" with
+  | [name, a, b, v] => do
+    let a ← a.toInt?
+    let b ← parseOptInt? b
+    if v = "" then none
+    pure { name := name, a := a, b := b, v := if v = "null" then none else some v }
+  | _ => none
+
+def parseMod? (s : String) : Option Mod :=
+  match s.splitOn "~" with
+  | ["add", c] => (parseClassDef? c).map Mod.add
+  | ["upd", c] => (parseClassDef? c).map Mod.update
+  | ["rep", c] => (parseClassDef? c).map Mod.replace
+  | ["neu", n] => if n = "" then none else some (Mod.neutralize n)
+  | ["ann", n] => if n = "" then none else some (Mod.annualize n)
+  | ["par", us] => (allSome ((us.splitOn "+").map parsePUpd?)).map Mod.params
+  | _ => none
+
+def parseOp? (s : String) : Option Op :=
+  match s.splitOn "!" with
+  | ["C", src] => src.toNat?.map Op.clone
+  | ["R", src, mods] => do
+    let src ← src.toNat?
+    let mods ← (if mods = "-" then some [] else allSome ((mods.splitOn "&").map parseMod?))
+    pure (Op.reform src mods)
+  | ["M", tgt, m] => do pure (Op.modify (← tgt.toNat?) (← parseMod? m))
+  | _ => none
+
+def parseOps? (s : String) : Option (List Op) :=
+  if s = "-" then some [] else allSome ((s.splitOn "|").map parseOp?)
+
+def parseParams? (s : String) : Option ParamTree :=
+  if s = "-" then some [] else
+  allSome ((s.splitOn ";").map fun f =>
+    match f.splitOn "=" with
+    | [name, es] => do
+      if name = "" then none
+      let items ← allSome ((es.splitOn ",").map fun e =>
+        match e.splitOn ":" with
+        | [d, v] => do
+          let d ← d.toInt?
+          if v = "" then none
+          pure (d, (Item.value (if v = "null" then none else some v) : Item String))
+        | _ => none)
+      pure (name, ofData items)
+    | _ => none)
+
+def parseVars? (s : String) : Option (List ClassDef) :=
+  if s = "-" then some [] else allSome ((s.splitOn ";").map parseClassDef?)
+
+def parseQueries? (s : String) : Option (List Int) :=
+  allSome ((s.splitOn ",").map (·.toInt?))
+
+def mkBase (keys : List String) (p : ParamTree) (cs : List ClassDef) : Option State := baseSystem keys p cs
+
+/-! ### printing -/
+
+def insSorted (s : String) : List String → List String
+  | [] => [s]
+  | t :: r => if s < t then s :: t :: r else t :: insSorted s r
+
+def sortStrs (l : List String) : List String := l.foldr insSorted []
+
+def showFml : Fml → String
+  | .base n => s!"f{n}"
+  | .annual f => "A(" ++ showFml f ++ ")"
+
+def showOptFml : Option Fml → String
+  | some f => showFml f | none => "-"
+
+def showOptInt : Option Int → String
+  | some i => toString i | none => "-"
+
+def showOptStr : Option String → String
+  | some s => s | none => "-"
+
+def firstIdx (p : Nat → Bool) (n : Nat) : Option Nat := (List.range n).find? p
+
+def showVar (st : State) (k : Nat) (sid : Oid) (s : SysObj) (qs : List Int) (name : String) : String :=
+  let h := st.heap
+  match resolve h sid name with
+  | none => name ++ "(?)"
+  | some vid =>
+    match h.getVar vid with
+    | none => name ++ "(?)"
+    | some v =>
+      let own := match firstIdx (fun j => match st.systems[j]? with
+                    | some sj => resolve h sj name == some vid | none => false) (k + 1) with
+                 | some j => toString j | none => "?"
+      let bl := match v.baseline with
+        | none => "-"
+        | some b => match firstIdx (fun j => match st.systems[j]? with
+                      | some sj => resolve h sj name == some b | none => false) st.systems.length with
+                    | some j => toString j | none => "x"
+      let bad := s.entities.filterMap fun e =>
+        if resolveVia h e name == some vid then none
+        else some (match h.getEnt e with | some eo => eo.key | none => "?")
+      let via := if bad.isEmpty then "ok" else "!" ++ "^".intercalate bad
+      let vw := v.view
+      let fs := if v.formulas.isEmpty then "-" else
+        "^".intercalate (v.formulas.map fun p => s!"{p.1}>{showFml p.2}")
+      let ats := "^".intercalate (qs.map fun d => showOptFml (getFormula vw d))
+      s!"{name}({own},{bl},{via},{v.valueType},{v.default},{v.entity},{v.defPeriod},{showOptInt v.endDate},{showOptStr v.setInput},{if v.isNeutralized then "T" else "F"},{fs},{ats})"
+
+def showSnap (st : State) (qs : List Int) (k : Nat) (sid : Oid) : String :=
+  let h := st.heap
+  match h.getSys sid with
+  | none => "?"
+  | some s =>
+    let names := sortStrs (varNames h sid)
+    let earlier : List Oid := (st.systems.take k).flatMap fun sj =>
+      match h.getSys sj with | some o => o.entities | none => []
+    let ents := s.entities.map fun e =>
+      match h.getEnt e with
+      | none => "?"
+      | some eo => s!"{eo.key}^{if eo.system == some sid then "T" else "F"}^{if earlier.contains e then "F" else "T"}"
+    let plabel := match firstIdx (fun j => match st.systems[j]? with
+                      | some sj => (match h.getSys sj with | some o => o.params == s.params | none => false)
+                      | none => false) (k + 1) with
+                  | some j => toString j | none => "?"
+    let pnames := match h.getPar s.params with | some p => sortStrs (p.map (fun (q : String × List (Entry String)) => q.1)) | none => []
+    let preads := pnames.flatMap fun n => qs.map fun d =>
+      s!"{n}@{d}={showOptStr (paramObs h sid n d)}"
+    "n=" ++ ",".intercalate names ++ "/e=" ++ ",".intercalate ents ++ "/P=" ++ plabel
+      ++ "/p=" ++ ",".intercalate preads
+      ++ "/v=" ++ "+".intercalate (names.map (showVar st k sid s qs))
+
+def snaps (st : State) (qs : List Int) : List String :=
+  (List.range st.systems.length).map fun k =>
+    match st.systems[k]? with
+    | some sid => showSnap st qs k sid
+    | none => "?"
+
+/-- print the snapshots, replacing those equal to the previous stage's by `=` -/
+def stageText (flag : String) (prev cur : List String) : String :=
+  let rec go : List String → List String → List String
+    | c :: cs, p :: ps => (if c = p then "=" else c) :: go cs ps
+    | cs, [] => cs
+    | [], _ => []
+  flag ++ ":" ++ ";".intercalate (go cur prev)
+
+def runAll (st : State) (qs : List Int) (prev : List String) : List Op → List String
+  | [] => []
+  | op :: r =>
+    let (st', okFlag) := step st op
+    let cur := snaps st' qs
+    stageText (if okFlag then "ok" else "ERR") prev cur :: runAll st' qs cur r
+
+end Sys
+
+def handleSys (args : List String) : String :=
+  match args with
+  | "run" :: ents :: ps :: vs :: ops :: qs :: _ =>
+    match Sys.parseParams? ps, Sys.parseVars? vs, Sys.parseOps? ops, Sys.parseQueries? qs with
+    | some p, some cs, some ops, some qs =>
+      let keys := ents.splitOn ","
+      if keys.any (· = "") then "BAD" else
+      match Sys.mkBase keys p cs with
+      | none => "ERR"
+      | some st =>
+        let s0 := Sys.snaps st qs
+        "|".intercalate (Sys.stageText "ok" [] s0 :: Sys.runAll st qs s0 ops)
+    | _, _, _, _ => "BAD"
+  | _ => "BAD"
+
 end OFCore.Drv
